@@ -160,13 +160,19 @@ func identOf(e ast.Expr) *ast.Ident {
 // Q2: URICmpShort is symmetric under swapping its two (uri, buffer) pairs.
 func ruleQ2(c *Ctx) {
 	fd := c.Decls["URICmpShort"]
-	if fd == nil || len(fd.Body.List) != 1 {
-		c.fail("Q2", "URICmpShort", token.NoPos, "not a single-return function")
+	if fd == nil {
+		c.fail("Q2", "URICmpShort", token.NoPos, "not found")
 		return
 	}
-	ret, ok := fd.Body.List[0].(*ast.ReturnStmt)
-	if !ok || len(ret.Results) != 1 {
-		c.fail("Q2", "URICmpShort", fd.Pos(), "not a single-return function")
+	var ret *ast.ReturnStmt
+	if len(fd.Body.List) == 1 {
+		ret, _ = fd.Body.List[0].(*ast.ReturnStmt)
+	}
+	if ret == nil || len(ret.Results) != 1 {
+		// not one boolean expression (early returns, if chain): the same statement is decided on SSA — every
+		// side-bearing condition and every boolean handed back is a commutative comparison of mirror-image operands
+		n := symCheck(c, "Q2", "URICmpShort")
+		c.check(n >= 5, "Q2", "URICmpShort:symmetric", fd.Pos(), fmt.Sprintf("%d side-bearing comparisons of URICmpShort are mirror images under swapping (u1,buf1) and (u2,buf2)", n))
 		return
 	}
 	var names []string
@@ -599,13 +605,16 @@ func ruleQ5(c *Ctx) {
 // operand 1 is operand 2 with the lists, buffers swapped), or is a loop bound, or looks at one side only at a
 // quantity that a dominating two-sided equality has already made equal on both sides (the parameter type). A test of
 // one list's value alone makes cmp(a,b) differ from cmp(b,a).
-func ruleQ8(c *Ctx) {
+// symCheck: every side-bearing branch condition (and every boolean handed back) of fnName treats its two
+// (list/URI, buffer) pairs alike; see rule Q8. Returns the number of conditions inspected.
+func symCheck(c *Ctx, rule, fnName string) int {
 	n := 0
-	for _, fnName := range []string{"URIParamsLstEq", "URIHdrsLstEq"} {
+	{
+
 		fn := c.SFuncs[fnName]
 		if fn == nil {
-			c.fail("Q8", fnName, token.NoPos, "not found")
-			continue
+			c.fail(rule, fnName, token.NoPos, "not found")
+			return n
 		}
 		// sides: pointer parameters in order -> list 1 / list 2; slice parameters in order -> buffer 1 / 2
 		tag := map[*ssa.Parameter]string{}
@@ -621,8 +630,8 @@ func ruleQ8(c *Ctx) {
 			}
 		}
 		if np != 2 || nb != 2 {
-			c.fail("Q8", fnName+":sig", fn.Pos(), "unexpected signature")
-			continue
+			c.fail(rule, fnName+":sig", fn.Pos(), "unexpected signature")
+			return n
 		}
 		flip := map[string]string{"L1": "L2", "L2": "L1", "B1": "B2", "B2": "B1"}
 		var render func(v ssa.Value, swap bool, depth int) string
@@ -748,6 +757,44 @@ func ruleQ8(c *Ctx) {
 				// a plain bool variable (found flag): no side
 			}
 		}
+		// booleans handed back: the value of a final conjunct flows into the result without a branch of its own
+		seenRet := map[ssa.Value]bool{}
+		var retLeaf func(v ssa.Value, b *ssa.BasicBlock, depth int)
+		retLeaf = func(v ssa.Value, b *ssa.BasicBlock, depth int) {
+			if seenRet[v] || depth > 8 {
+				return
+			}
+			seenRet[v] = true
+			switch x := v.(type) {
+			case *ssa.Phi:
+				for j, e := range x.Edges {
+					retLeaf(e, x.Block().Preds[j], depth+1)
+				}
+			case *ssa.UnOp:
+				if x.Op == token.NOT {
+					retLeaf(x.X, b, depth+1)
+				}
+			case *ssa.BinOp:
+				if _, isBool := x.Type().Underlying().(*types.Basic); isBool && (x.Op == token.EQL || x.Op == token.NEQ || x.Op == token.LSS || x.Op == token.GTR || x.Op == token.LEQ || x.Op == token.GEQ) {
+					leaves = append(leaves, leaf{b: b, cond: x, x: x.X, y: x.Y, op: x.Op.String(), commut: x.Op == token.EQL || x.Op == token.NEQ})
+				}
+			case *ssa.Call:
+				name := ""
+				if cal := x.Call.StaticCallee(); cal != nil {
+					name = cal.Name()
+				}
+				if len(x.Call.Args) == 2 {
+					leaves = append(leaves, leaf{b: b, cond: x, x: x.Call.Args[0], y: x.Call.Args[1], op: name, commut: name == "CmpEq" || name == "Equal"})
+				}
+			}
+		}
+		for _, b := range fn.Blocks {
+			if ret, ok := b.Instrs[len(b.Instrs)-1].(*ssa.Return); ok && len(ret.Results) >= 1 {
+				if bt, ok := ret.Results[0].Type().Underlying().(*types.Basic); ok && bt.Kind() == types.Bool {
+					retLeaf(ret.Results[0], b, 0)
+				}
+			}
+		}
 		cnt := 0
 		for _, lf := range leaves {
 			var rs []string
@@ -768,7 +815,7 @@ func ruleQ8(c *Ctx) {
 			}
 			if one && two {
 				okm := lf.y != nil && lf.commut && render(lf.x, false, 0) == render(lf.y, true, 0)
-				c.check(okm, "Q8", key, lf.cond.Pos(), "two-sided condition "+desc+" compares the same quantity of both lists with a commutative comparator (mirror image under swapping the lists)")
+				c.check(okm, rule, key, lf.cond.Pos(), "two-sided condition "+desc+" compares the same quantity of both lists with a commutative comparator (mirror image under swapping the lists)")
 				continue
 			}
 			// one-sided: every side-bearing operand must already be equal on both sides
@@ -788,8 +835,17 @@ func ruleQ8(c *Ctx) {
 					okEq = false
 				}
 			}
-			c.check(okEq, "Q8", key, lf.cond.Pos(), "one-sided condition "+desc+" looks only at a quantity that a dominating two-sided equality made equal in both lists; otherwise the result depends on the order of the arguments")
+			c.check(okEq, rule, key, lf.cond.Pos(), "one-sided condition "+desc+" looks only at a quantity that a dominating two-sided equality made equal in both lists; otherwise the result depends on the order of the arguments")
 		}
+	
+	}
+	return n
+}
+
+func ruleQ8(c *Ctx) {
+	n := 0
+	for _, fnName := range []string{"URIParamsLstEq", "URIHdrsLstEq"} {
+		n += symCheck(c, "Q8", fnName)
 	}
 	c.check(n >= 6, "Q8", "conditions", token.NoPos, fmt.Sprintf("%d side-bearing branch conditions inspected (frozen minimum 6)", n))
 }
